@@ -175,6 +175,11 @@ def check_projection(case, ctx):
     # (4) fixed point
     if case["class"] == "physical":
         ctx.close(z, x, tol, "fixed_point_on_physical_input")
+    # strictly physical input (equality defect at rounding level, no negative eigenvalue at all): both projections are the
+    # identity on it, so it comes back to rounding accuracy - not merely to the accuracy of the stopping threshold
+    if rm.eq_defect_stacked(t, x, d, m) <= 1e-14 * (1 + scale) and rm.ineq_defect_stacked(t, x, basis, d, m) == 0.0:
+        ctx.label("input-strictly-physical")
+        ctx.close(z, x, 1e-12 * (1 + scale), "strictly_physical_input_returned_unchanged")
 
     # (5) order independence
     other = "ineq_eq" if order == "eq_ineq" else "eq_ineq"
